@@ -986,9 +986,117 @@ fn folds(out_path: &str, n_random: usize) -> Value {
         "mismatch_counts": mm.counts(), "mismatches": mm.items(), "samples": samples})
 }
 
+// ------------------------------------------------------------------ long chains of one precedence level (C14)
+
+/// `vh arith chains <out.ndjson> <n_random>`: `x1 op1 x2 op2 ... xn` with operators of ONE level (+ -, or * /) groups left
+/// to right, however long the chain is; with floats every grouping rounds differently.  Records the steps of the
+/// left-to-right reading (float2 records of the implementation's own operators) and the value of the unparenthesised
+/// chain in several forms (one `fchain` record); Trace_Arith (FloatChain) chains the steps through its memo.
+fn chains(out_path: &str, n_random: usize) -> Value {
+    let mut rng = Rng::from_env(0xC14C);
+    let mut cache = Cache::default();
+    let mut mm = Mismatches::new(100);
+    let mut file = std::io::BufWriter::new(std::fs::File::create(out_path).expect("cannot create the trace file"));
+    let mut table: Vec<(Vec<f64>, Vec<&'static str>)> = vec![
+        (vec![1e16, 1.0, 1.0, 1.0, 1.0, 1.0, 1.0, 1.0], vec!["+"; 7]),
+        (vec![1e16, 1.0, 1.0, 1.0, 1.0, 1.0, 1.0, 1.0, 1.0], vec!["+"; 8]),
+        (vec![0.1; 10], vec!["+"; 9]),
+        (vec![1.0, 1e16, -1e16, 1.0, 1e16, -1e16, 1.0, 1e16, -1e16, 1.0, 3.0, 4.0], vec!["+"; 11]),
+        (vec![1e16, 1.0, 1.0, 1.0, 1.0, 1.0, 1.0, 1.0, 1.0, 1.0, 1.0, 1.0, 1.0, 1.0, 1.0, 1.0], vec!["+"; 15]),
+        (vec![1e16, 1.0, 1e16, 1.0, 1.0, 1.0, 1.0, 1.0, 1.0], vec!["+", "-", "+", "+", "+", "-", "+", "+"]),
+        (vec![1e-200, 1e200, 1e200, 1e-200, 1e-200, 1e200, 3.0, 7.0], vec!["*"; 7]),
+        (vec![1.1; 9], vec!["*"; 8]),
+        (vec![1e200, 1e200, 1e-200, 1e-200, 3.0, 7.0, 0.1, 0.3, 9.0], vec!["*", "/", "*", "/", "*", "/", "*", "/"]),
+        (vec![1.0, 3.0, 3.0, 3.0, 3.0, 3.0, 3.0, 3.0, 3.0], vec!["/"; 8]),
+        (vec![100.0, 0.1, 0.2, 0.3, 0.1, 0.2, 0.3, 0.1, 0.2], vec!["-"; 8]),
+    ];
+    let pool = [0.1, 0.2, 0.3, 1.0, -1.0, 1e16, -1e16, 1e-16, 3.5, 1e308, 1.0 / 3.0, 2.5e-8, 7.0, 1e100, 1e-100, 3.0, 1.1];
+    for _ in 0..n_random {
+        let len = 3 + rng.below(12) as usize;
+        let level: &[&'static str] = if rng.chance(1, 2) { &["+", "-"] } else { &["*", "/"] };
+        let xs: Vec<f64> = (0..len).map(|_| *rng.pick(&pool)).collect();
+        let ops: Vec<&'static str> = (0..len - 1).map(|_| *rng.pick(level)).collect();
+        table.push((xs, ops));
+    }
+    let (mut records, mut nchains, mut steps, mut executions) = (0u64, 0u64, 0u64, 0u64);
+    let mut samples = vec![];
+    for (ci, (xs, ops)) in table.iter().enumerate() {
+        let mut acc = xs[0].to_bits();
+        let mut ok = true;
+        for (i, op) in ops.iter().enumerate() {
+            let x = xs[i + 1];
+            let step_fn = format!("(a: float, b: float) -> float {{ return a {op} b }}");
+            let (out, _) = cache.call_api(&step_fn, true, vec![Variable::Float(f64::from_bits(acc)), Variable::Float(x)]);
+            let host = host_float(op, f64::from_bits(acc), x);
+            let rec = json!({"t": "float2", "op": op, "a": limbs(acc), "b": limbs(x.to_bits()), "as": format!("{:?}", f64::from_bits(acc)),
+                "bs": format!("{x:?}"), "rs": [{"f": "api", "r": out_json(&out)}], "cells": [], "nt": false});
+            writeln!(file, "{}", serde_json::to_string(&rec).unwrap()).unwrap();
+            records += 1;
+            steps += 1;
+            match out {
+                Out::F(b) => {
+                    if b != host.to_bits() && !(f64::from_bits(b).is_nan() && host.is_nan()) {
+                        mm.push("ieee", json!({"t": "float2", "op": op, "a": format!("{:?}", f64::from_bits(acc)), "b": format!("{x:?}"),
+                            "program": format!("{step_fn} (a step of the chain)"), "expected": format!("{host:?}"), "got": format!("{:?}", f64::from_bits(b))}));
+                    }
+                    acc = b;
+                }
+                _ => { ok = false; break; }
+            }
+        }
+        if !ok || !xs.iter().all(|x| cache.lit_ok(Sc::F(x.to_bits()))) {
+            continue;
+        }
+        let lits: Vec<String> = xs.iter().map(|x| Sc::F(x.to_bits()).lit().unwrap()).collect();
+        let join = |names: &[String]| -> String {
+            let mut t = names[0].clone();
+            for (i, op) in ops.iter().enumerate() {
+                t.push_str(&format!(" {op} {}", names[i + 1]));
+            }
+            t
+        };
+        let mut forms: Vec<(&'static str, String, Out)> = vec![];
+        let program = join(&lits);
+        forms.push(("lit", program.clone(), run_text(&program).0));
+        let mut first = lits.clone();
+        first[0] = "a".to_string();
+        let f = format!("(a: float) -> float {{ return {} }}", join(&first));
+        forms.push(("param_first", f.clone(), cache.call_api(&f, false, vec![Variable::Float(xs[0])]).0));
+        let mut last = lits.clone();
+        let n = last.len();
+        last[n - 1] = "z".to_string();
+        let f = format!("(z: float) -> float {{ return {} }}", join(&last));
+        forms.push(("param_last", f.clone(), cache.call_api(&f, false, vec![Variable::Float(xs[n - 1])]).0));
+        let names: Vec<String> = (0..n).map(|i| format!("p{i}")).collect();
+        let params: Vec<String> = names.iter().map(|p| format!("{p}: float")).collect();
+        let f = format!("({}) -> float {{ return {} }}", params.join(", "), join(&names));
+        forms.push(("all_params", f.clone(), cache.call_api(&f, false, xs.iter().map(|x| Variable::Float(*x)).collect()).0));
+        let decls: Vec<String> = (0..n).map(|i| format!("v{i} := mut {}; ", lits[i])).collect();
+        let reads: Vec<String> = (0..n).map(|i| format!("(*v{i})")).collect();
+        let program = format!("{}{}", decls.concat(), join(&reads));
+        forms.push(("cells", program.clone(), run_text(&program).0));
+        executions += forms.len() as u64;
+        let rs: Vec<Value> = forms.iter().map(|(f, _, o)| json!({"f": f, "r": out_json(o)})).collect();
+        let rec = json!({"t": "fchain", "op": "chain", "ops": ops, "xs": xs.iter().map(|x| limbs(x.to_bits())).collect::<Vec<_>>(),
+            "as": join(&lits), "rs": rs, "cells": [], "nt": true,
+            "programs": forms.iter().map(|(f, p, _)| json!({"f": f, "program": p})).collect::<Vec<_>>()});
+        writeln!(file, "{}", serde_json::to_string(&rec).unwrap()).unwrap();
+        records += 1;
+        nchains += 1;
+        if ci % 7 == 1 && samples.len() < 3 {
+            samples.push(json!({"chain": join(&lits), "left_to_right": format!("{:?}", f64::from_bits(acc)),
+                "forms": forms.iter().map(|(f, _, o)| json!({"form": f, "got": out_show(o)})).collect::<Vec<_>>()}));
+        }
+    }
+    file.flush().unwrap();
+    json!({"records": records, "chains": nchains, "steps": steps, "executions": executions,
+        "mismatch_counts": mm.counts(), "mismatches": mm.items(), "samples": samples})
+}
+
 pub fn run(args: &[String]) -> Value {
     match args.first().map(String::as_str) {
         Some("replay") => replay(&args[1]),
+        Some("chains") => chains(&args[1], args.get(2).and_then(|s| s.parse().ok()).unwrap_or(100)),
         Some("folds") => folds(&args[1], args.get(2).and_then(|s| s.parse().ok()).unwrap_or(100)),
         Some("record") => record(
             &args[1],
